@@ -359,7 +359,55 @@ def c10_fn(inp):
     return {"reproduced": False, "detail": f"SC_apply agrees with the property on {len(tables)} tables"}
 
 
-DRIVERS = {"c09_run": c09_run, "c10_run": c10_run, "c10_fn": c10_fn}
+# ----------------------------------------------------------------------------------
+# C02: PoSER merging against the property statement
+# ----------------------------------------------------------------------------------
+
+def c02_merge(inp):
+    from pyoma2.functions import gen
+    rng = np.random.RandomState(inp.get("seed", 0))
+    tried = 0
+    for trial in range(300):
+        S = int(rng.randint(2, 5)) if not inp.get("nsetup") or trial % 2 else int(inp["nsetup"])
+        nref = int(rng.randint(1, 5))
+        nm = int(rng.randint(1, 5))
+        cplx = trial % 3 == 0
+        nrov = [int(rng.randint(0, 6)) for _ in range(S)]
+        ntot = nref + sum(nrov)
+        G = rng.randn(ntot, nm) + (1j * rng.randn(ntot, nm) if cplx else 0)
+        MS, refl, rows = [], [], list(range(nref))
+        off = nref
+        cfac = np.empty((S, nm))
+        for s_ in range(S):
+            n_s = nref + nrov[s_]
+            pos = rng.permutation(n_s)[:nref]          # channel positions of the references, in any order
+            sens = np.empty(n_s, dtype=int)
+            sens[pos] = np.arange(nref)
+            rovpos = [p for p in range(n_s) if p not in set(pos.tolist())]
+            sens[rovpos] = np.arange(off, off + nrov[s_])
+            off += nrov[s_]
+            cfac[s_] = rng.choice([-1, 1], nm) * np.exp(rng.uniform(np.log(0.05), np.log(20), nm))
+            MS.append(G[sens, :] * cfac[s_][None, :])
+            refl.append([int(p) for p in pos])
+            rows += [int(x) for x in sens[rovpos]]
+        tried += 1
+        want = G[rows, :] * cfac[0][None, :]
+        try:
+            got = gen.merge_mode_shapes([m.copy() for m in MS], [list(r) for r in refl])
+        except Exception as e:      # noqa: BLE001
+            return {"reproduced": True, "detail": f"merge_mode_shapes raised {type(e).__name__}: {e} (setups={S}, refs={refl})"}
+        if got.shape != want.shape or not np.allclose(got, want, rtol=1e-8, atol=1e-10):
+            bad = None
+            if got.shape == want.shape:
+                d = np.argwhere(~np.isclose(got, want, rtol=1e-8, atol=1e-10))
+                bad = [int(x) for x in d[0]]
+            return {"reproduced": True, "detail": f"merge_mode_shapes differs from c[0]*G: setups={S}, Nref={nref}, ref_ind={refl}, "
+                                                  f"factors(mode0)={np.round(cfac[:, 0], 3).tolist()}, first bad cell {bad}: got "
+                                                  f"{got[tuple(bad)] if bad else got.shape}, want {want[tuple(bad)] if bad else want.shape}"}
+    return {"reproduced": False, "detail": f"merge_mode_shapes equals the global shape in the first setup's scale on {tried} random layouts"}
+
+
+DRIVERS = {"c02_merge": c02_merge, "c09_run": c09_run, "c10_run": c10_run, "c10_fn": c10_fn}
 
 
 def main():
